@@ -59,7 +59,7 @@ pub fn base_files(seed: u64, per_type: usize) -> Vec<Base> {
     out
 }
 
-const VALUES: [i32; 22] = [
+const VALUES: [i32; 28] = [
     0,
     1,
     -1,
@@ -82,6 +82,13 @@ const VALUES: [i32; 22] = [
     0x4000_0004u32 as i32,
     0x1000_0002,
     -(1 << 28),
+    // values whose doubling overflows or lands on i32::MIN, on both sides
+    -(1 << 30),
+    -(1 << 30) - 1,
+    -(1 << 30) + 1,
+    (1 << 30) - 1,
+    -(1 << 29),
+    i32::MIN + 2,
 ];
 
 // ------------------------------------------------------------------------------ the case space
